@@ -64,6 +64,7 @@ type Spec struct {
 	StubsDoc    []string    `json:"stubs_doc"`
 	Assumptions []string    `json:"assumptions"`
 	Solver      []string    `json:"solver"` // optional solver command line (default: z3 -in), e.g. ["z3-new","-in"]
+	ReplayFlags []string    `json:"replay_flags"` // extra `go test` flags for native replays, e.g. ["-race"]
 }
 
 type KnownFinding struct {
@@ -528,8 +529,14 @@ func (r *replayer) run(cases []rtCase, timeout time.Duration) ([]*rtResult, stri
 	cf := filepath.Join(r.tmp, fmt.Sprintf("cases%d.json", r.n))
 	b, _ := json.Marshal(cases)
 	os.WriteFile(cf, b, 0o644)
-	cmd := exec.Command("go", "test", "-vet=off", "-count=1", "-run", "^TestVerifReplay$", "-v", "-timeout", fmt.Sprintf("%ds", int(timeout.Seconds())),
-		"-overlay", filepath.Join(r.tmp, "overlay.json"), r.pkg)
+	args := []string{"test", "-vet=off", "-count=1", "-run", "^TestVerifReplay$", "-v", "-timeout", fmt.Sprintf("%ds", int(timeout.Seconds())),
+		"-overlay", filepath.Join(r.tmp, "overlay.json")}
+	// replay_flags: extra `go test` build flags for the native runs of this property, e.g. ["-race"] (the race
+	// runtime turns every atomic operation into a call, which widens instruction-level race windows enough for
+	// a native stress run to hit them)
+	args = append(args, r.spec.ReplayFlags...)
+	args = append(args, r.pkg)
+	cmd := exec.Command("go", args...)
 	cmd.Dir = r.repo
 	cmd.Env = append(os.Environ(), "VERIF_REPLAY="+cf, "GOFLAGS=-mod=mod", "GOPROXY=off", "GOCACHE="+gocache())
 	out, _ := runWithTimeout(cmd, timeout+90*time.Second)
